@@ -45,7 +45,7 @@ def replay(b, path, prop, bad_of):
 
 
 def premise_check(b, d, seed, tier):
-    """the premise `tc_annotations_typed` of the C01 / C02 theorems, CHECKED per program: the extracted
+    """the premises of the C01 / C02 theorems, CHECKED per program.  (1) `tc_annotations_typed`: the extracted
     checker proofs/RtStaticCheck.v (sound: static_check_sound) is run on the annotated output of the
     typechecker model for every candidate program of the suite (not only the ones that were run).
     returns (coverage dict, list of accepted in-fragment programs the judgement does NOT type)"""
@@ -65,6 +65,21 @@ def premise_check(b, d, seed, tier):
                         "typing judgement; TYPED means the premise of safety_partial / progress_run_partial is a theorem for that program (static_check_sound)",
         "premise_checked_among_programs_run": sum(1 for i, _ in cands if i in ran and res.get(i, "").startswith("TYPED")),
     }
+    # the theorems that no longer assume tc_annotations_typed (proofs/RtTheoremsTc.v) have two COMPUTABLE premises
+    # on the parsed program instead: prog_syn_ok (a theorem for parsed programs: proofs/ParseSynOk.v) and rt_syn_ok
+    # (names as the parser + expansion leave them).  Evaluated by the extracted model on every candidate program.
+    sres = S.run_tool(b.model, "syn-premises", [(i, "", t) for i, t in cands], timeout=1800)
+    scnt = _c.Counter((sres.get(i, "MISSING").split(" ")[0]) for i, _ in cands)
+    syn_bad = [(i, t + "\n// syn-premises: " + sres.get(i, "MISSING")) for i, t in cands
+               if res.get(i, "").startswith(("TYPED", "NOT-TYPED")) and not sres.get(i, "MISSING").startswith("SYN-OK")]
+    cov.update({
+        "premise_syn_ok_on": int(scnt.get("SYN-OK", 0)),
+        "premise_syn_failed_on": len(syn_bad),
+        "premise_syn_rule": "prog_syn_ok p && rt_syn_ok p evaluated by the extracted model (syn_premises_text) on every candidate program; SYN-OK on an accepted closed "
+                            "program means static_typed holds of the checker's output by THEOREM (syn_premises_sound: tc_annotations_typed_rt), independently of the "
+                            "checker static_typed_b; the two verdicts are required to agree (TYPED <-> SYN-OK) on every accepted closed program",
+    })
+    not_typed = not_typed + syn_bad
     # the premise topo_reachable: TESTED (not proved) along model runs of every program of the fragment
     typed = [(i, "", t) for i, t in cands if res.get(i, "").startswith("TYPED")]
     seeds = (0, 1) if tier == "quick" else (0, 1, 2, 3)
